@@ -207,3 +207,39 @@ func genRequestFor(t *rapid.T, addr string) (reqSpec, []string) {
 	}
 	return s, labels
 }
+
+// genNaming draws how the operator named the backends (see naming).
+func genNaming(t *rapid.T) naming {
+	nm := naming{Scheme: rapid.SampledFrom(namingSchemes).Draw(t, "naming")}
+	if nm.Scheme == "drawn" {
+		nm.Words = rapid.Permutation(nameVocabulary).Draw(t, "name_order")
+	}
+	return nm
+}
+
+// genObservers draws 0..2 read-only admin / monitoring calls (kinds of pool.observe).
+func genObservers(t *rapid.T) []int {
+	var out []int
+	// SampledFrom, not IntRange: rapid biases integer ranges towards their lower end
+	for i, m := 0, rapid.SampledFrom([]int{0, 0, 1, 1, 2}).Draw(t, "observers"); i < m; i++ {
+		out = append(out, rapid.SampledFrom(observerTable).Draw(t, "observer"))
+	}
+	return out
+}
+
+func hasListing(kinds []int) bool {
+	for _, k := range kinds {
+		if isListing(k) {
+			return true
+		}
+	}
+	return false
+}
+
+func observerList(kinds []int) []string {
+	var out []string
+	for _, k := range kinds {
+		out = append(out, observerNames[k])
+	}
+	return out
+}
